@@ -83,13 +83,16 @@ CLAIMS = {
                 "-len <= i < len and raises IndexError exactly otherwise. The remaining operations (union, intersection, "
                 "difference, symmetric_difference, issubset, issuperset, __eq__, __reversed__, freeze, __hash__; one-shot "
                 "iterators and self-aliasing arguments for all operations) are covered by the bounded stand-in only: the real "
-                "classes against the reference model 'duplicate-free list' over an exhaustive small scope.",
+                "classes against the reference model 'duplicate-free list' over an exhaustive small scope. One-shot iterators "
+                "as arguments of __init__, update, intersection_update and symmetric_difference_update are covered by a typestate "
+                "obligation per use and path (the parameter goes into exactly one traversal), replayed natively with iter(xs).",
         "technique": "contract-based deductive verification (sidecar contracts, loop invariants over member set and rank) + "
                      "bounded contract check, exhaustive small scope",
         "note": "assumed (A-ODICT): dict semantics - a new key is ranked above all existing keys, deletion and a dict "
                 "comprehension over the dict itself keep relative ranks, dict.fromkeys inserts in iteration order, iteration "
                 "visits the keys in rank order; elements are abstract values whose == and hash agree with identity; iterable "
-                "arguments are modelled as re-iterable sequences in the proof (one-shot iterators: bounded part only).",
+                "arguments are sequences in the proof; A-ITER-1: a function that hands a parameter to exactly one traversal behaves on "
+                "an iterator yielding xs as on xs; arguments that read lazily from the set itself: bounded part only.",
     },
     "C19": {
         "category": "proof",
